@@ -1,0 +1,14 @@
+//go:build verif
+
+// Verification contracts for package protocol (comment-only; read by /verif/govc).
+// This file contains no executable code.
+
+package protocol
+
+//@ func (r *byteReader) SkipTaggedFields
+//@   loop 1 invariant 0 <= r.pos && r.pos <= len(r.buf) && r.pos >= old(r.pos)
+//@
+//@ func ParseRequestHeader
+//@   ensures [C10.header_body_is_suffix] err == nil ==> len(result1) + 10 <= len(b)
+//@   ensures [C10.header_nonnil] err == nil ==> result0 != nil
+//@   ensures [C10.error_returns_nothing] err != nil ==> result0 == nil && len(result1) == 0
